@@ -254,6 +254,14 @@ def apply_op(op, e, choose):
 
 
 # ---- the checks ---------------------------------------------------------------------------------------------
+def _site(exc):
+    import traceback
+    fr = traceback.extract_tb(exc.__traceback__)
+    own = [f for f in fr if '/hail/' in f.filename]
+    f = (own or fr)[-1]
+    return f'{f.filename.split("/")[-1]}:{f.lineno} {f.name}: {f.line}'
+
+
 class _fresh_toplevel_refs:
     """Deep recomputation context.  A `Ref row|global|va|sa|g` object (TopLevelReference) is shared by every expression
     of a table and caches the row type it had when the table was made; when a lookup (Join) is resolved the same object
@@ -307,7 +315,7 @@ def check_expr(e, env=None, text_check=None):
         with _fresh_toplevel_refs(x):
             x.compute_type(dict(env or {}), None, deep_typecheck=True)
     except AssertionError as a:
-        raise Violation('ir-deep-typecheck', f'deep recomputation of IR types fails ({a}) for {x}')
+        raise Violation('ir-deep-typecheck', f'deep recomputation of IR types fails ({a}) at {_site(a)} for {x}')
     if e.dtype != x.typ:
         raise Violation('dtype-vs-ir-typ', f'dtype {e.dtype} but recomputed _ir.typ {x.typ}: {x}')
     if text_check is not None:
@@ -328,7 +336,7 @@ def check_table(t, text_check=None):
         with _fresh_toplevel_refs(t._tir):
             t._tir.compute_type(deep_typecheck=True)
     except AssertionError as a:
-        raise Violation('tir-deep-typecheck', f'deep recomputation of TableIR types fails ({a})')
+        raise Violation('tir-deep-typecheck', f'deep recomputation of TableIR types fails ({a}) at {_site(a)}')
     tt = t._tir.typ
     if t.row.dtype != tt.row_type or t.globals.dtype != tt.global_type or list(t.key) != list(tt.row_key):
         raise Violation('table-type-after-recompute', f'{t.row.dtype} / {t.globals.dtype} vs {tt}')
@@ -353,7 +361,7 @@ def check_matrix(mt, text_check=None):
         with _fresh_toplevel_refs(mt._mir):
             mt._mir.compute_type(deep_typecheck=True)
     except AssertionError as a:
-        raise Violation('mir-deep-typecheck', f'deep recomputation of MatrixIR types fails ({a})')
+        raise Violation('mir-deep-typecheck', f'deep recomputation of MatrixIR types fails ({a}) at {_site(a)}')
     mtyp = mt._mir.typ
     for what, a, b in [('row', mt.row.dtype, mtyp.row_type), ('col', mt.col.dtype, mtyp.col_type),
                        ('entry', mt.entry.dtype, mtyp.entry_type), ('globals', mt.globals.dtype, mtyp.global_type)]:
